@@ -13,7 +13,7 @@ import random
 
 from pyoak.match.pattern import NodeMatcher
 from pyoak.match.xpath import ASTXpath
-from pyoak.node import ASTNode
+from pyoak.node import NODE_REGISTRY, ASTNode
 from pyoak.tree import Tree
 from pyoak.visitor import ASTTransformVisitor, ASTVisitor
 
@@ -38,12 +38,16 @@ BUDGET = {"quick": 240, "thorough": 2400}
 def snapshot(m: Machine):
     snap = {}
     for n in m.live_objects():
-        snap[id(n)] = (n, [(f.name, object.__getattribute__(n, f.name)) for f in dataclasses.fields(n)], hash(n))
+        snap[id(n)] = (n, [(f.name, object.__getattribute__(n, f.name)) for f in dataclasses.fields(n)], hash(n),
+                       NODE_REGISTRY.get(n.id) is n)
     return snap
 
 
-def compare(snap) -> str | None:
-    for _i, (n, fields, h) in snap.items():
+def compare(snap, readonly: bool = False) -> str | None:
+    for _i, (n, fields, h, reg) in snap.items():
+        if readonly and (NODE_REGISTRY.get(n.id) is n) != reg:
+            return (f"registry membership of a pre-existing {type(n).__name__} changed from {reg} to {not reg} "
+                    f"by an operation other than detach / replace / deserialization")
         for name, v in fields:
             now = object.__getattribute__(n, name)
             if now is not v:
@@ -59,6 +63,12 @@ class _Rewrite(ASTTransformVisitor):
         self.mode = mode
 
     def visit_Leaf(self, node):
+        if self.mode == "rewrite-then-raise":
+            # rebuild the first subtrees, then fail at a later sibling
+            self.seen = getattr(self, "seen", 0) + 1
+            if self.seen > self.limit:
+                raise RuntimeError("boom later")
+            return dataclasses.replace(node, v=node.v + 1) if self.seen % 2 else node
         if self.mode == "remove":
             return None
         if self.mode == "raise":
@@ -78,7 +88,7 @@ def readonly_op(m: Machine, rng) -> str:
     if not live:
         return "noop"
     x = rng.choice(live)
-    k = rng.randrange(14)
+    k = rng.choice([0, 1, 2, 3, 4, 5, 6, 7, 7, 7, 8, 9, 10, 11, 12, 13])
     try:
         if k == 0:
             list(x.dfs()); list(x.dfs(bottom_up=True)); list(x.bfs()); list(x.gather(zoo.Leaf))
@@ -106,9 +116,11 @@ def readonly_op(m: Machine, rng) -> str:
             _Count().visit(x)
             return "visitor"
         if k in (5, 6, 7):
-            mode = ["rewrite", "remove", "raise"][k - 5]
+            mode = ["rewrite", "remove", rng.choice(["raise", "rewrite-then-raise"])][k - 5]
             try:
-                _Rewrite(mode).transform(x)
+                tv = _Rewrite(mode)
+                tv.limit = rng.randint(1, 4)
+                tv.transform(x)
             except Exception:  # noqa
                 pass
             return "transform-" + mode
@@ -170,8 +182,74 @@ def frozen_cases():
             yield Case("frozen", None, None, True, f"{cls.__name__}.{f.name}", oracle_fail=bad, sig=f"frozen|{f.name}")
 
 
+def _full_snapshot(nodes):
+    return [(n, [(f.name, object.__getattribute__(n, f.name)) for f in dataclasses.fields(n)], hash(n),
+             NODE_REGISTRY.get(n.id) is n) for n in nodes]
+
+
+def _full_compare(snap, membership=True):
+    for n, fields, h, reg in snap:
+        for name, v in fields:
+            now = object.__getattribute__(n, name)
+            if now is not v:
+                return f"field {name} of a pre-existing {type(n).__name__} changed from {v!r} to {now!r}"
+        if hash(n) != h:
+            return f"hash of a pre-existing {type(n).__name__} changed"
+        if membership and (NODE_REGISTRY.get(n.id) is n) != reg:
+            return f"registry membership of a pre-existing {type(n).__name__} changed from {reg} to {not reg}"
+    return None
+
+
+def directed_cases(rng, n):
+    """operations that fail part-way: nothing that existed before may change (fields, id, hash, and — except for
+    detach / replace / deserialization — registry membership)"""
+    import gc
+    for _ in range(n):
+        gc.collect()
+        NODE_REGISTRY.clear()
+        # (1) replace() rejected by the class' own validation AFTER the new node was registered
+        x = zoo.PickyLate(v=rng.randint(0, 3), note=rng.choice(["", "n"]))
+        twin = zoo.PickyLate(v=x.v) if rng.random() < 0.4 else None
+        if rng.random() < 0.3:
+            x.detach_self()
+        snap = _full_snapshot([x] + ([twin] if twin else []))
+        kw = {"note": "bad"}
+        if rng.random() < 0.3:
+            kw["v"] = x.v + 1
+        try:
+            x.replace(**kw)
+            fail = "replace(note='bad') did not raise"
+        except RuntimeError:
+            fail = _full_compare(snap)
+        yield Case("directed:late-failing-replace", None, None, True,
+                   f"PickyLate(v={x.v}) twin={twin is not None} replace({kw})", oracle_fail=fail,
+                   sig="frame|directed|late-failing-replace")
+        del x, twin, snap
+        # (2) a transform that rebuilds earlier subtrees and raises at a later sibling
+        g = zoo.Gen(rng, origins=False, share=0.0, falsy=False)
+        t = g.tree(rng.choice([6, 10, 16, 24]))
+        g.pool.clear()
+        nodes = [t] + [c for c, *_ in zoo.positions(t)]
+        nleaf = sum(1 for n in nodes if type(n) is zoo.Leaf)
+        if nleaf >= 2:
+            snap = _full_snapshot(nodes)
+            tv = _Rewrite("rewrite-then-raise")
+            tv.limit = rng.randint(1, nleaf - 1)
+            try:
+                tv.transform(t)
+                fail = None          # the limit was not reached (pruned by another rule): nothing to check
+            except Exception:  # noqa
+                fail = _full_compare(snap)
+            yield Case("directed:transform-raises-later", None, None, True,
+                       f"{zoo.show(t)} rewrite leaves #1,3,.. then raise at leaf #{tv.limit + 1}", oracle_fail=fail,
+                       sig="frame|directed|transform-raises-later")
+            del snap
+        del t, nodes
+
+
 def cases(rng: random.Random, tier: str):
     yield from frozen_cases()
+    yield from directed_cases(rng, 40 if tier == "quick" else 1500)
     n = 100 if tier == "quick" else 2500
     for _ in range(n):
         size = rng.choice([8, 8, 2])
@@ -181,12 +259,12 @@ def cases(rng: random.Random, tier: str):
         with Machine(rng, size) as m:
             box = {"snap": None, "fail": None}
 
-            def settle():
+            def settle(readonly=False):
                 # compare and drop the snapshot *before* the machine observes liveness
                 snap = box["snap"]
                 box["snap"] = None
                 if snap is not None and box["fail"] is None:
-                    f = compare(snap)
+                    f = compare(snap, readonly)
                     if f:
                         box["fail"] = f"after op #{len(kinds)} : {f}"
                 del snap
@@ -200,7 +278,7 @@ def cases(rng: random.Random, tier: str):
                     kinds.append(m.descr[-1] if len(m.descr) > nd else "noop")
                 else:
                     kinds.append(readonly_op(m, rng))
-                    settle()
+                    settle(readonly=not kinds[-1].endswith("roundtrip"))
             fail = box["fail"]
             m.before_observe = None
             line, real = m.request(), m.observation()
